@@ -278,6 +278,30 @@ def directed(rng, tier):
         for a_ in (0, 1, 2, 3):
             script += [{"op": "call", "inst": 1, "export": "dirty", "args": [arg("i32", 0x01010101 * (a_ + 3))]},
                        {"op": "call", "inst": 1, "export": e_["name"], "args": [arg("i32", a_)]}]
+    # (z3) dead code pops what it likes (the stack is polymorphic there): more drops / sets / stores in the dead tail of a block than
+    #      operands were pushed inside it, with operands of every type waiting BELOW the block for consumers that name their type
+    #      (comparison, select, a branch that carries the value, an if condition)
+    dfuncs, dexps, dscript = [], [], [INST]
+    KC = {"i32": (["i32.const", b32(77)], ["i32.const", b32(78)]), "i64": (["i64.const", b64(0x1122334455)], ["i64.const", b64(78)]),
+          "f32": (["f32.const", b32(0x3FC00000)], ["f32.const", b32(0x40200000)]), "f64": (["f64.const", b64(0x3FF8000000000000)], ["f64.const", b64(0x4004000000000000)])}
+    for t in ("i32", "i64", "f32", "f64"):
+        a_, b_ = KC[t]
+        for nd in (1, 2, 4):
+            for kname, killer in (("br", [["br", 0]]), ("unreachable", [["local.get", 0], ["br_if", 0], ["unreachable"]]), ("return", [["i32.const", b32(5)], ["return"]])):
+                dead = [["drop"]] * nd + [["unreachable"]]
+                shapes_ = {
+                    "eq": [a_, a_, ["block", ""]] + killer + dead + [["end"], [t + ".eq"], ["end"]],
+                    "sel": [a_, b_, ["block", ""]] + killer + dead + [["end"], ["local.get", 0], ["select"]] + conv[t] + [["end"]],
+                    "carry": [["block", t], a_, ["block", ""]] + killer + dead + [["end"], ["br", 0], ["end"]] + conv[t] + [["end"]],
+                    "under": [["i32.const", b32(9)], a_, ["block", ""]] + killer + dead + [["end"]] + conv[t] + [["i32.add"], ["end"]],
+                }
+                for sh, body in shapes_.items():
+                    dfuncs.append({"type": 0, "locals": [], "body": body})
+                    nm_ = "dd_%s_%s_%d_%s" % (t, sh, nd, kname)
+                    dexps.append({"name": nm_, "kind": "func", "idx": len(dfuncs) - 1})
+                    for x_ in (0, 1):
+                        dscript.append({"op": "call", "inst": 1, "export": nm_, "args": [arg("i32", x_)]})
+    items.append({"id": "deaddrops", "module": {"types": [{"p": ["i32"], "r": ["i32"]}], "funcs": dfuncs, "exports": dexps}, "script": dscript})
     items.append({"id": "condset", "module": {"types": [{"p": ["i32"], "r": ["i32"]}], "funcs": funcs, "exports": exps}, "script": script})
     return items
 
